@@ -1,5 +1,5 @@
 (* C09 — lemmas about the metadata model. *)
-From Coq Require Import ZArith List Bool Lia.
+From Coq Require Import String ZArith List Bool Lia.
 From IBL.C09 Require Import Model.
 Import ListNotations.
 Open Scope Z_scope.
@@ -372,7 +372,8 @@ Lemma print_dec_count d : count 46 (print_dec d) <? 2 = true.
 Proof.
   destruct d as [m [|s]]; unfold print_dec.
   - rewrite digits_count46 by apply print_nat_digits. reflexivity.
-  - rewrite !count_app, !digits_count46 by (apply print_nat_digits || apply digs_digits). reflexivity.
+  - rewrite !count_app. rewrite (digits_count46 (print_nat _)) by apply print_nat_digits.
+    rewrite (digits_count46 (digs _ _)) by apply digs_digits. reflexivity.
 Qed.
 
 Lemma parse_float_print d : normd d -> parse_float (print_dec d) = Some d.
@@ -483,7 +484,7 @@ Proof.
     pose proof (print_nat_nonempty z). destruct (map print_nat zs); cbn; destruct (print_nat z); cbn; congruence. }
   unfold parse_value, numeric.
   rewrite dc_numch, dc_count46 by exact Hdc.
-  destruct (join [44] ps) eqn:E; [congruence|]. cbn [null negb andb Z.ltb Z.compare]. rewrite <- E.
+  destruct (join [44] ps) as [|c0 r0] eqn:E; [congruence|]. cbn [null negb andb Z.ltb Z.compare]. rewrite <- E.
   rewrite split_on_join.
   - subst ps. rewrite (mapM_map print_nat parse_float (fun z => (z, O))).
     + destruct zs as [|z1 [|z2 zs]]; cbn in HL; try lia. reflexivity.
@@ -496,36 +497,36 @@ Qed.
 Lemma dec_trunc_int d : snd d = O -> dec_trunc d = fst d.
 Proof. destruct d as [m s]. cbn. intros ->. unfold dec_trunc, pow10. cbn. apply Z.div_1_r. Qed.
 
-Lemma show_list_plain l : plain (show_value (VList l)) = true.
-Proof.
-  cbn [show_value]. apply numch_plain.
-  assert (H : forall ps, Forall (fun q => forallb numch q = true) ps -> forallb numch (join [44] ps) = true).
-  { induction 1 as [|a ps Ha Hps IH]; [reflexivity|]. destruct ps as [|b ps]; [exact Ha|].
-    change (join [44] (a :: b :: ps)) with (a ++ [44] ++ join [44] (b :: ps)).
-    rewrite !forallb_app, Ha, IH. reflexivity. }
-  (* print_int of a truncation: digits, possibly after a minus sign that never occurs; keep it simple *)
-Abort.
+(* re-reading a written canonical value: lists come back truncated to integers *)
+Definition reparse (v : value) : value :=
+  match v with VList l => VList (map (fun x => (dec_trunc x, O)) l) | _ => v end.
 
-(* re-reading a written canonical value gives it back *)
-Lemma parse_show v : val_ok v -> int_lists_val v ->
-  parse_value (show_value v) = Some v /\ plain (show_value v) = true.
+Lemma reparse_int_lists v : int_lists_val v -> reparse v = v.
 Proof.
-  destruct v as [s|d|l|z|]; cbn [val_ok int_lists_val show_value]; try tauto.
-  - intros [Hn Hp] _. unfold parse_value. now rewrite Hn.
-  - intros Hn _. split; [now apply parse_value_num|].
+  destruct v as [s|d|l|z|]; cbn; auto. intros HI. f_equal.
+  rewrite <- (map_id l) at 2. apply map_ext_in. intros [m s] Hx.
+  rewrite Forall_forall in HI. specialize (HI _ Hx). cbn in HI. subst s.
+  now rewrite dec_trunc_int.
+Qed.
+
+Lemma parse_show v : val_ok v ->
+  parse_value (show_value v) = Some (reparse v) /\ plain (show_value v) = true.
+Proof.
+  destruct v as [s|d|l|z|]; cbn [val_ok reparse show_value]; try tauto.
+  - intros [Hn Hp]. unfold parse_value. now rewrite Hn.
+  - intros Hn. split; [now apply parse_value_num|].
     apply numch_plain, dd_numch, print_dec_dd.
-  - intros [HL HF] HI.
-    assert (E : map (fun x => print_int (dec_trunc x)) l = map print_nat (map fst l)).
-    { rewrite map_map. apply map_ext_in. intros x Hx. rewrite Forall_forall in HF, HI.
-      rewrite dec_trunc_int by auto. apply print_int_nonneg, HF, Hx. }
-    rewrite E.
-    assert (Hz : Forall (fun z => 0 <= z) (map fst l)).
+  - intros [HL HF].
+    assert (Hz : Forall (fun z => 0 <= z) (map dec_trunc l)).
     { apply Forall_forall. intros z Hz. apply in_map_iff in Hz as [x [<- Hx]].
-      rewrite Forall_forall in HF. apply HF, Hx. }
-    split.
+      rewrite Forall_forall in HF. destruct (HF _ Hx) as [H0 _].
+      unfold dec_trunc. apply Z.div_pos; [exact H0|apply pow10_pos]. }
+    assert (E : map (fun x => print_int (dec_trunc x)) l = map print_nat (map dec_trunc l)).
+    { rewrite map_map. apply map_ext_in. intros x Hx. apply print_int_nonneg.
+      rewrite Forall_forall in Hz. apply Hz. now apply in_map. }
+    rewrite E. split.
     + rewrite parse_value_ints; [|now rewrite map_length|exact Hz].
-      do 2 f_equal. rewrite map_map. rewrite <- (map_id l) at 2. apply map_ext_in.
-      intros [m s] Hx. rewrite Forall_forall in HI. specialize (HI _ Hx). cbn in *. now subst.
+      now rewrite map_map.
     + apply numch_plain, dc_numch, join_dc. apply Forall_forall. intros q Hq.
       apply in_map_iff in Hq as [z [<- _]]. apply print_nat_digits.
 Qed.
@@ -541,4 +542,466 @@ Proof.
   - exists (VNum (z, O)). split.
     + apply (parse_value_num (z, O)). split; cbn; auto.
     + apply numch_plain, digits_numch, print_nat_digits.
+Qed.
+
+(* ------------------------------------------------------------ dictionaries *)
+Definition keys (d : dict) : list str := map fst d.
+
+Lemma lookup_dset k k2 v d :
+  lookup k (dset k2 v d) = if str_eq_dec k k2 then Some v else lookup k d.
+Proof.
+  induction d as [|[k0 v0] d IH]; cbn [dset lookup].
+  - destruct (str_eq_dec k k2); reflexivity.
+  - destruct (str_eq_dec k2 k0) as [->|N]; cbn [lookup].
+    + destruct (str_eq_dec k k0); reflexivity.
+    + destruct (str_eq_dec k k0) as [->|N2].
+      * destruct (str_eq_dec k0 k2); [congruence|reflexivity].
+      * exact IH.
+Qed.
+
+Lemma lookup_None k d : ~ In k (keys d) -> lookup k d = None.
+Proof.
+  induction d as [|[k0 v0] d IH]; cbn [lookup keys map fst]; [auto|]. intros H.
+  destruct (str_eq_dec k k0) as [->|N]; [exfalso; apply H; now left|].
+  apply IH. intros H2. apply H. now right.
+Qed.
+
+Lemma lookup_In k d : In k (keys d) -> exists v, lookup k d = Some v.
+Proof.
+  induction d as [|[k0 v0] d IH]; cbn [lookup keys map fst]; [intros []|]. intros H.
+  destruct (str_eq_dec k k0) as [->|N]; [eauto|]. destruct H as [H|H]; [congruence|auto].
+Qed.
+
+Lemma has_In k d : has k d = true <-> In k (keys d).
+Proof.
+  unfold has. split.
+  - intros H. destruct (in_dec str_eq_dec k (keys d)) as [Hi|Hn]; [exact Hi|].
+    now rewrite (lookup_None _ _ Hn) in H.
+  - intros H. destruct (lookup_In _ _ H) as [v ->]. reflexivity.
+Qed.
+
+Lemma dset_fresh k v d : ~ In k (keys d) -> dset k v d = d ++ [(k, v)].
+Proof.
+  induction d as [|[k0 v0] d IH]; cbn [dset keys map fst app]; [auto|]. intros H.
+  destruct (str_eq_dec k k0) as [->|N]; [exfalso; apply H; now left|].
+  rewrite IH; [reflexivity|]. intros H2. apply H. now right.
+Qed.
+
+Lemma keys_dset_in k v d : In k (keys d) -> keys (dset k v d) = keys d.
+Proof.
+  induction d as [|[k0 v0] d IH]; cbn [dset keys map fst]; [intros []|]. intros H.
+  destruct (str_eq_dec k k0) as [->|N]; [reflexivity|]. cbn [map fst]. f_equal.
+  apply IH. destruct H as [H|H]; [congruence|exact H].
+Qed.
+
+Lemma keys_dset k v d : keys (dset k v d) = if has k d then keys d else keys d ++ [k].
+Proof.
+  destruct (has k d) eqn:E.
+  - apply keys_dset_in. now apply has_In.
+  - rewrite dset_fresh.
+    + unfold keys. rewrite map_app. reflexivity.
+    + intros H. apply has_In in H. congruence.
+Qed.
+
+Lemma In_keys_dset k v d x : In x (keys (dset k v d)) <-> x = k \/ In x (keys d).
+Proof.
+  rewrite keys_dset. destruct (has k d) eqn:E.
+  - apply has_In in E. split; [auto|]. intros [->|H]; auto.
+  - rewrite in_app_iff. cbn. split; [intros [H|[H|[]]]; auto|intros [H|H]; auto].
+Qed.
+
+Lemma NoDup_snoc {A} (l : list A) a : NoDup l -> ~ In a l -> NoDup (l ++ [a]).
+Proof.
+  intros H Ha. induction H as [|x l Hx Hl IH]; cbn.
+  - constructor; [intros []|constructor].
+  - constructor.
+    + rewrite in_app_iff. cbn. intros [H|[H|[]]]; [auto|]. subst. apply Ha. now left.
+    + apply IH. intros H. apply Ha. now right.
+Qed.
+
+Lemma NoDup_dset k v d : NoDup (keys d) -> NoDup (keys (dset k v d)).
+Proof.
+  intros H. rewrite keys_dset. destruct (has k d) eqn:E; [exact H|].
+  apply NoDup_snoc; [exact H|]. intros Hi. apply has_In in Hi. congruence.
+Qed.
+
+Lemma Forall_dset (P : str * value -> Prop) k v d :
+  Forall P d -> P (k, v) -> Forall P (dset k v d).
+Proof.
+  intros H Hp. induction H as [|[k0 v0] d H0 Hd IH]; cbn [dset].
+  - constructor; [exact Hp|constructor].
+  - destruct (str_eq_dec k k0); constructor; auto.
+Qed.
+
+Lemma assoc_ext a b :
+  keys a = keys b -> NoDup (keys a) -> (forall k, lookup k a = lookup k b) -> a = b.
+Proof.
+  revert b. induction a as [|[k v] a IH]; intros [|[k2 v2] b]; cbn [keys map fst];
+    try discriminate; [reflexivity|].
+  intros [= <- Hk] Hnd HL. inversion Hnd as [|? ? Hnk Hnd2]; subst.
+  pose proof (HL k) as H0. cbn [lookup] in H0.
+  destruct (str_eq_dec k k) as [_|]; [|congruence]. injection H0 as <-.
+  f_equal. apply IH; [exact Hk|exact Hnd2|]. intros k2.
+  destruct (str_eq_dec k2 k) as [->|N].
+  - rewrite !lookup_None; [reflexivity| |exact Hnk]. unfold keys in *. now rewrite <- Hk.
+  - specialize (HL k2). cbn [lookup] in HL. destruct (str_eq_dec k2 k); [congruence|exact HL].
+Qed.
+
+Lemma dict_of_acc es acc : NoDup (keys (acc ++ es)) ->
+  fold_left (fun d e => dset (fst e) (snd e) d) es acc = acc ++ es.
+Proof.
+  revert acc. induction es as [|[k v] es IH]; intros acc H; cbn [fold_left fst snd].
+  - now rewrite app_nil_r.
+  - rewrite dset_fresh.
+    + rewrite IH; rewrite <- app_assoc; [reflexivity|exact H].
+    + unfold keys in H. rewrite map_app in H. cbn [map fst] in H.
+      apply NoDup_remove_2 in H. intros Hi. apply H. rewrite in_app_iff. now left.
+Qed.
+
+Lemma dict_of_nodup es : NoDup (keys es) -> dict_of es = es.
+Proof. intros H. unfold dict_of. now rewrite dict_of_acc. Qed.
+
+(* ------------------------------------------------------------ what read produces *)
+Definition key_ok (k : str) : Prop :=
+  forallb (fun c => negb (c =? 61)) k = true /\ untilde k = k /\ plain k = true.
+Definition entry_ok (e : str * value) : Prop := key_ok (fst e) /\ val_ok (snd e).
+Definition base_canon (b : dict) : Prop := NoDup (keys b) /\ Forall entry_ok b.
+
+Lemma forallb_filter {A} (p q : A -> bool) l : forallb p l = true -> forallb p (filter q l) = true.
+Proof.
+  induction l as [|x l IH]; cbn; [auto|]. rewrite andb_true_iff. intros [Hx Hl].
+  destruct (q x); cbn; [rewrite Hx|]; auto.
+Qed.
+Lemma filter_idem {A} (q : A -> bool) l : filter q (filter q l) = filter q l.
+Proof.
+  induction l as [|x l IH]; cbn; [reflexivity|]. destruct (q x) eqn:E; cbn; [rewrite E, IH|]; auto.
+Qed.
+
+Lemma parse_line_ok l k v : plain l = true -> parse_line l = Some (k, v) -> entry_ok (k, v).
+Proof.
+  intros Hp. unfold parse_line. destruct (break_eq l) as [[k0 v0]|] eqn:E; [|discriminate].
+  apply break_eq_spec in E as [-> Hk0]. unfold plain in Hp. rewrite forallb_app in Hp.
+  cbn [forallb] in Hp. apply andb_true_iff in Hp as [Hpk Hpv]. apply andb_true_iff in Hpv as [_ Hpv].
+  destruct (parse_value v0) as [x|] eqn:Ev; [|discriminate]. intros [= <- <-].
+  split; cbn [fst snd].
+  - split; [|split].
+    + unfold untilde. now apply forallb_filter.
+    + unfold untilde. apply filter_idem.
+    + unfold untilde, plain. now apply forallb_filter.
+  - eapply parse_value_ok; [exact Hpv|exact Ev].
+Qed.
+
+Lemma dict_of_canon es : Forall entry_ok es -> base_canon (dict_of es).
+Proof.
+  unfold dict_of. assert (G : forall acc, base_canon acc -> Forall entry_ok es ->
+    base_canon (fold_left (fun d e => dset (fst e) (snd e) d) es acc)).
+  { induction es as [|[k v] es IH]; intros acc Ha He; cbn [fold_left]; [exact Ha|].
+    inversion He; subst. apply IH; [|assumption]. destruct Ha as [Ha1 Ha2]. split.
+    - now apply NoDup_dset.
+    - now apply Forall_dset. }
+  intros H. apply G; [|exact H]. split; constructor.
+Qed.
+
+Lemma mapM_In {A B} (f : A -> option B) l r b :
+  mapM f l = Some r -> In b r -> exists a, In a l /\ f a = Some b.
+Proof.
+  revert r. induction l as [|a l IH]; cbn; intros r.
+  - intros [= <-] [].
+  - destruct (f a) eqn:E; [|discriminate]. destruct (mapM f l); [|discriminate].
+    intros [= <-] [<-|Hb]; [eauto|]. destruct (IH _ eq_refl Hb) as [a' [? ?]]. eauto.
+Qed.
+
+Lemma read_base_canon f b : read_base f = Some b -> base_canon b.
+Proof.
+  unfold read_base. destruct (mapM parse_line _) as [es|] eqn:E; [|discriminate].
+  intros [= <-]. apply dict_of_canon. apply Forall_forall. intros [k v] He.
+  destruct (mapM_In _ _ _ _ E He) as [l [Hl Hp]].
+  eapply parse_line_ok; [|exact Hp]. eapply splitlines_plain, Hl.
+Qed.
+
+(* ------------------------------------------------------------ writing and reading back *)
+Definition rp (v : value) : value :=
+  match parse_value (show_value v) with Some x => x | None => VNone end.
+Definition writable (v : value) : Prop :=
+  parse_value (show_value v) <> None /\ plain (show_value v) = true.
+Definition body (e : str * value) : str := fst e ++ 61 :: show_value (snd e).
+
+Lemma plain_no13 s : plain s = true -> forallb (fun c => negb (c =? 13)) s = true.
+Proof.
+  apply forallb_impl. intros c H. destruct (Z.eqb_spec c 13) as [->|]; [discriminate|reflexivity].
+Qed.
+
+Lemma write_meta_bodies d : write_meta d = concat (map (fun b => b ++ [10]) (map body d)).
+Proof.
+  unfold write_meta. rewrite map_map. f_equal. apply map_ext. intros [k v].
+  unfold write_line, body. cbn [fst snd]. rewrite <- app_assoc. reflexivity.
+Qed.
+
+Lemma concat_lines_no13 bodies : Forall (fun b => plain b = true) bodies ->
+  forallb (fun c => negb (c =? 13)) (concat (map (fun b => b ++ [10]) bodies)) = true.
+Proof.
+  induction 1 as [|b bs Hb Hbs IH]; [reflexivity|]. cbn [map concat].
+  rewrite !forallb_app, IH, (plain_no13 _ Hb). reflexivity.
+Qed.
+
+Lemma read_base_written d :
+  NoDup (keys d) -> Forall (fun e => key_ok (fst e) /\ writable (snd e)) d ->
+  read_base (write_meta d) = Some (map (fun e => (fst e, rp (snd e))) d).
+Proof.
+  intros Hnd Hd.
+  assert (Hb : Forall (fun b => plain b = true) (map body d)).
+  { apply Forall_forall. intros b Hb. apply in_map_iff in Hb as [e [<- He]].
+    rewrite Forall_forall in Hd. destruct (Hd e He) as [[_ [_ Hk]] [_ Hv]].
+    unfold body, plain. rewrite forallb_app. cbn [forallb]. fold (plain (fst e)) (plain (show_value (snd e))).
+    now rewrite Hk, Hv. }
+  unfold read_base. rewrite write_meta_bodies, univ_nl_id by now apply concat_lines_no13.
+  rewrite splitlines_written by exact Hb.
+  rewrite (mapM_map body parse_line (fun e => (fst e, rp (snd e)))).
+  - cbn [option_map]. f_equal. apply dict_of_nodup. unfold keys. rewrite map_map. cbn [fst]. exact Hnd.
+  - intros e He. rewrite Forall_forall in Hd. destruct (Hd e He) as [[Hk1 [Hk2 _]] [Hv _]].
+    unfold parse_line, body. rewrite break_eq_app by exact Hk1. unfold rp.
+    destruct (parse_value (show_value (snd e))); [|congruence]. now rewrite Hk2.
+Qed.
+
+(* ------------------------------------------------------------ the round trip *)
+Definition kN := lit "neuropixelVersion".
+Definition kS := lit "serial".
+Definition finish (b : dict) : option dict :=
+  match serial (dset kN (version_value b) b) with
+  | None => None
+  | Some s => Some (dset kS (serial_value s) (dset kN (version_value b) b))
+  end.
+Lemma read_meta_finish f :
+  read_meta f = match read_base f with None => None | Some b => finish b end.
+Proof. reflexivity. Qed.
+
+(* version and serial only consult these keys *)
+Definition agree_on (ks : list str) (a b : dict) : Prop := forall k, In k ks -> lookup k a = lookup k b.
+Definition version_keys := [lit "typeEnabled"; lit "imDatPrb_type"; lit "imDatPrb_port"; lit "imDatPrb_slot"].
+Definition serial_keys := [lit "imProbeSN"; lit "imDatPrb_sn"].
+
+Lemma version_agree a b : agree_on version_keys a b -> version a = version b.
+Proof.
+  intros H. unfold version, has.
+  rewrite (H (lit "typeEnabled")), (H (lit "imDatPrb_type")), (H (lit "imDatPrb_port")),
+    (H (lit "imDatPrb_slot")); [reflexivity| | | |]; unfold version_keys; cbn [In]; auto 6.
+Qed.
+Lemma serial_agree a b : agree_on serial_keys a b -> serial a = serial b.
+Proof.
+  intros H. unfold serial.
+  rewrite (H (lit "imProbeSN")), (H (lit "imDatPrb_sn")); [reflexivity| |]; unfold serial_keys; cbn [In]; auto.
+Qed.
+
+Lemma lookup_mapv (g : value -> value) k d :
+  lookup k (map (fun e => (fst e, g (snd e))) d) = option_map g (lookup k d).
+Proof.
+  induction d as [|[k0 v0] d IH]; cbn [map lookup fst snd]; [reflexivity|].
+  destruct (str_eq_dec k k0); [reflexivity|exact IH].
+Qed.
+
+Lemma lookup_entry k v d : NoDup (keys d) -> In (k, v) d -> lookup k d = Some v.
+Proof.
+  induction d as [|[k0 v0] d IH]; [intros _ []|]. cbn [keys map fst lookup]. intros Hnd [E|Hi].
+  - injection E as -> ->. destruct (str_eq_dec k k); [reflexivity|congruence].
+  - inversion Hnd as [|? ? Hn Hnd2]; subst. destruct (str_eq_dec k k0) as [->|N].
+    + exfalso. apply Hn. apply (in_map fst) in Hi. exact Hi.
+    + now apply IH.
+Qed.
+
+Lemma lookup_Some_In k v d : lookup k d = Some v -> In (k, v) d.
+Proof.
+  induction d as [|[k0 v0] d IH]; cbn [lookup]; [discriminate|].
+  destruct (str_eq_dec k k0) as [->|N]; [intros [= ->]; now left|right; auto].
+Qed.
+
+Lemma vers_str_ok v : val_ok (VStr (vers_str v)).
+Proof. destruct v; cbn [val_ok]; split; reflexivity. Qed.
+
+Lemma roundtrip f d :
+  read_meta f = Some d ->
+  Forall (fun e => int_lists_val (snd e)) d ->
+  read_meta (write_meta d) = Some d.
+Proof.
+  rewrite read_meta_finish. destruct (read_base f) as [b|] eqn:Eb; [|discriminate].
+  pose proof (read_base_canon _ _ Eb) as [Hnd Hok]. unfold finish.
+  set (vv := version_value b). set (b1 := dset kN vv b).
+  destruct (serial b1) as [s|] eqn:Es; [|discriminate]. intros [= <-] HI.
+  set (d := dset kS (serial_value s) b1) in *.
+  assert (Hnd_d : NoDup (keys d)) by (apply NoDup_dset, NoDup_dset, Hnd).
+  (* every entry of d is writable, with a well-formed key *)
+  assert (HkN : key_ok kN) by (repeat split; reflexivity).
+  assert (HkS : key_ok kS) by (repeat split; reflexivity).
+  assert (Hw : Forall (fun e => key_ok (fst e) /\ writable (snd e)) d).
+  { subst d b1. apply Forall_dset; [apply Forall_dset|].
+    - eapply Forall_impl; [|exact Hok]. intros [k v] [Hk Hv]. split; [exact Hk|].
+      destruct (parse_show v Hv) as [E P]. split; [cbn [snd]; congruence|exact P].
+    - split; [exact HkN|]. subst vv. unfold version_value. destruct (version b) as [v|].
+      + destruct (parse_show _ (vers_str_ok v)) as [E P]. split; [cbn [snd]; congruence|exact P].
+      + split; [discriminate|reflexivity].
+    - split; [exact HkS|]. destruct s as [z|]; cbn [serial_value snd].
+      + destruct (parse_show_int z) as [x [E P]]. split; [cbn [show_value]; congruence|exact P].
+      + split; [discriminate|reflexivity]. }
+  rewrite read_meta_finish, (read_base_written d Hnd_d Hw). unfold finish.
+  set (d2 := map (fun e => (fst e, rp (snd e))) d).
+  (* d2 agrees with b away from the two derived keys *)
+  assert (Hag : forall k, k <> kN -> k <> kS -> lookup k d2 = lookup k b).
+  { intros k H1 H2. subst d2. rewrite lookup_mapv. subst d b1. rewrite !lookup_dset.
+    destruct (str_eq_dec k kS); [congruence|]. destruct (str_eq_dec k kN); [congruence|].
+    destruct (lookup k b) as [v|] eqn:E; [|reflexivity]. cbn [option_map]. f_equal.
+    apply lookup_Some_In in E. rewrite Forall_forall in Hok. destruct (Hok _ E) as [_ Hv].
+    cbn [snd] in Hv. unfold rp. destruct (parse_show v Hv) as [-> _].
+    apply reparse_int_lists.
+    (* (k, v) is still an entry of d *)
+    rewrite Forall_forall in HI. apply (HI (k, v)). apply lookup_Some_In.
+    rewrite !lookup_dset. destruct (str_eq_dec k kS); [congruence|]. destruct (str_eq_dec k kN); [congruence|].
+    now apply lookup_entry. }
+  assert (Hv : version d2 = version b).
+  { apply version_agree. intros k Hk. apply Hag; intros ->; unfold version_keys in Hk; cbn [In] in Hk;
+      repeat (destruct Hk as [Hk|Hk]; [discriminate Hk|]); exact Hk. }
+  unfold version_value. rewrite Hv. fold (version_value b). fold vv.
+  assert (Hs : serial (dset kN vv d2) = serial b1).
+  { apply serial_agree. intros k Hk. subst b1. rewrite !lookup_dset.
+    destruct (str_eq_dec k kN); [reflexivity|]. apply Hag; [assumption|]. intros ->.
+    unfold serial_keys in Hk; cbn [In] in Hk; repeat (destruct Hk as [Hk|Hk]; [discriminate Hk|]); exact Hk. }
+  rewrite Hs, Es. f_equal.
+  assert (Hkeys : keys d2 = keys d) by (subst d2; unfold keys; rewrite map_map; reflexivity).
+  assert (HinN : In kN (keys d)) by (subst d; apply In_keys_dset; right; apply In_keys_dset; now left).
+  assert (HinS : In kS (keys d)) by (subst d; apply In_keys_dset; now left).
+  apply assoc_ext.
+  - rewrite keys_dset_in, keys_dset_in; rewrite ?keys_dset_in; rewrite ?Hkeys; auto.
+  - apply NoDup_dset, NoDup_dset. now rewrite Hkeys.
+  - intros k. subst d b1. rewrite !lookup_dset.
+    destruct (str_eq_dec k kS); [reflexivity|]. destruct (str_eq_dec k kN); [reflexivity|].
+    now apply Hag.
+Qed.
+
+Lemma roundtrip_pub f d :
+  read_meta f = Some d ->
+  (forall k l, In (k, VList l) d -> Forall (fun x => snd x = O) l) ->
+  read_meta (write_meta d) = Some d.
+Proof.
+  intros H HI. apply (roundtrip f d H). apply Forall_forall. intros [k v] He.
+  destruct v; cbn; auto. eapply HI; exact He.
+Qed.
+
+(* keys of a parsed dictionary: unique, no tilde, no '=', no line break *)
+Lemma read_meta_keys f d : read_meta f = Some d ->
+  NoDup (keys d) /\ forall k, In k (keys d) -> ~ In 126 k /\ ~ In 61 k /\ plain k = true.
+Proof.
+  rewrite read_meta_finish. destruct (read_base f) as [b|] eqn:Eb; [|discriminate].
+  pose proof (read_base_canon _ _ Eb) as [Hnd Hok]. unfold finish.
+  destruct (serial _) as [s|]; [|discriminate]. intros [= <-]. split.
+  - apply NoDup_dset, NoDup_dset, Hnd.
+  - assert (G : forall k, key_ok k -> ~ In 126 k /\ ~ In 61 k /\ plain k = true).
+    { intros k [H1 [H2 H3]]. split; [|split; [|exact H3]].
+      - rewrite <- H2. apply untilde_no_tilde.
+      - intros Hi. rewrite forallb_forall in H1. specialize (H1 _ Hi). discriminate. }
+    intros k Hk. apply G. apply In_keys_dset in Hk as [->|Hk]; [repeat split; reflexivity|].
+    apply In_keys_dset in Hk as [->|Hk]; [repeat split; reflexivity|].
+    unfold keys in Hk. apply in_map_iff in Hk as [[k0 v0] [<- He]].
+    rewrite Forall_forall in Hok. apply (Hok _ He).
+Qed.
+
+(* last key wins *)
+Lemma lookup_app k a b :
+  lookup k (a ++ b) = match lookup k a with Some v => Some v | None => lookup k b end.
+Proof.
+  induction a as [|[k0 v0] a IH]; cbn [app lookup]; [reflexivity|].
+  destruct (str_eq_dec k k0); [reflexivity|exact IH].
+Qed.
+
+Lemma lookup_fold k es acc :
+  lookup k (fold_left (fun d e => dset (fst e) (snd e) d) es acc) =
+  match lookup k (rev es) with Some v => Some v | None => lookup k acc end.
+Proof.
+  revert acc. induction es as [|[k0 v0] es IH]; intros acc; cbn [fold_left rev fst snd]; [reflexivity|].
+  rewrite IH, lookup_app, lookup_dset. cbn [lookup].
+  destruct (lookup k (rev es)); [reflexivity|]. destruct (str_eq_dec k k0); reflexivity.
+Qed.
+
+Lemma last_key_wins es k : lookup k (dict_of es) = lookup k (rev es).
+Proof. unfold dict_of. rewrite lookup_fold. cbn [lookup]. destruct (lookup k (rev es)); reflexivity. Qed.
+
+(* ------------------------------------------------------------ decision tables *)
+Lemma val_eq_int_inj t a b : val_eq_int t a = true -> val_eq_int t b = true -> a = b.
+Proof.
+  destruct t as [s|[m sc]|l|z|]; cbn; try discriminate.
+  - unfold dec_eq_int, dec_eqb. cbn. rewrite !andb_true_iff, !Z.eqb_eq. intros [-> _] [-> _]. reflexivity.
+  - rewrite !Z.eqb_eq. congruence.
+Qed.
+
+Lemma val_eq_int_other t a b : val_eq_int t a = true -> a <> b -> val_eq_int t b = false.
+Proof.
+  intros Ha Hab. destruct (val_eq_int t b) eqn:E; [|reflexivity].
+  exfalso. apply Hab. eapply val_eq_int_inj; eassumption.
+Qed.
+
+Definition code_of (v : vers) : list Z :=
+  match v with
+  | V3A => [] | V3B1 | V3B2 => [0] | VNP21 => [21; 1030] | VNP24 => [24; 2013] | VNPultra => [1100]
+  end.
+
+Lemma version_table d :
+  (has (lit "typeEnabled") d = true -> version d = Some V3A) /\
+  (has (lit "typeEnabled") d = false -> lookup (lit "imDatPrb_type") d = None -> version d = None) /\
+  (forall t, has (lit "typeEnabled") d = false -> lookup (lit "imDatPrb_type") d = Some t ->
+     (val_eq_int t 0 = true ->
+        version d = Some (if has (lit "imDatPrb_port") d && has (lit "imDatPrb_slot") d then V3B2 else V3B1)) /\
+     (val_eq_int t 21 = true \/ val_eq_int t 1030 = true -> version d = Some VNP21) /\
+     (val_eq_int t 24 = true \/ val_eq_int t 2013 = true -> version d = Some VNP24) /\
+     (val_eq_int t 1100 = true -> version d = Some VNPultra) /\
+     ((forall c, In c [0; 21; 1030; 24; 2013; 1100] -> val_eq_int t c = false) -> version d = None)).
+Proof.
+  unfold version. split; [intros ->; reflexivity|]. split; [intros -> ->; reflexivity|].
+  intros t -> ->. split; [|split; [|split; [|split]]].
+  - intros ->. destruct (_ && _); reflexivity.
+  - intros [H|H]; rewrite (val_eq_int_other t _ 0 H) by lia; rewrite H; [reflexivity|].
+    now rewrite orb_true_r.
+  - intros [H|H]; rewrite (val_eq_int_other t _ 0 H), (val_eq_int_other t _ 21 H),
+      (val_eq_int_other t _ 1030 H) by lia; rewrite H; [reflexivity|]. now rewrite orb_true_r.
+  - intros H. rewrite (val_eq_int_other t _ 0 H), (val_eq_int_other t _ 21 H),
+      (val_eq_int_other t _ 1030 H), (val_eq_int_other t _ 24 H), (val_eq_int_other t _ 2013 H) by lia.
+    now rewrite H.
+  - intros H. rewrite !H by (cbn; auto 10). reflexivity.
+Qed.
+
+Lemma type_table d :
+  (forall a l rest, lookup (lit "snsApLfSy") d = Some (VList (a :: l :: rest)) ->
+     (fst a = 0 -> fst l <> 0 -> get_type d = Some (Some SLf)) /\
+     (fst a <> 0 -> fst l = 0 -> get_type d = Some (Some SAp)) /\
+     ((fst a = 0 <-> fst l = 0) -> get_type d = Some None)) /\
+  (lookup (lit "snsApLfSy") d = None ->
+     get_type d = Some (if val_is_str (lookup (lit "typeThis") d) (lit "nidq") then Some SNidq else None)).
+Proof.
+  unfold get_type. split.
+  - intros a l rest ->. split; [|split].
+    + intros -> H. apply Z.eqb_neq in H. now rewrite H.
+    + intros H ->. apply Z.eqb_neq in H. now rewrite H.
+    + intros H. destruct (Z.eqb_spec (fst a) 0) as [E|E].
+      * apply H in E. rewrite E. reflexivity.
+      * destruct (Z.eqb_spec (fst l) 0) as [E2|E2]; [apply H in E2; congruence|reflexivity].
+  - intros ->. reflexivity.
+Qed.
+
+Lemma py_nth_2 {A} (a b c : A) rest : py_nth (a :: b :: c :: rest) 2 = Some c.
+Proof.
+  unfold py_nth. change (2 <? 0) with false. cbv iota.
+  destruct (Z.ltb_spec 2 (Z.of_nat (length (a :: b :: c :: rest)))) as [H|H].
+  - reflexivity.
+  - cbn [length] in H. lia.
+Qed.
+
+(* channel and sync counts of an imec stream *)
+Lemma counts_table d a l sy rest n st :
+  lookup (lit "snsApLfSy") d = Some (VList (a :: l :: sy :: rest)) ->
+  lookup (lit "nSavedChans") d = Some (VNum n) ->
+  get_type d = Some (Some st) ->
+  nchannels d = Some (dec_trunc n) /\
+  sync_indices d = Some (dec_trunc n - dec_trunc sy, Z.max 0 (dec_trunc sy)).
+Proof.
+  intros Hs Hn Ht. unfold sync_indices, nchannels. rewrite Ht, Hn. cbn [py_int]. split; [reflexivity|].
+  assert (st <> SNidq).
+  { intros ->. unfold get_type in Ht. rewrite Hs in Ht.
+    destruct (_ && _); [discriminate|]. destruct (_ && _); discriminate. }
+  destruct st; [| |congruence]; rewrite Hs; cbn [py_index]; rewrite py_nth_2; reflexivity.
 Qed.
